@@ -31,12 +31,31 @@ def child(arg):
     return name, json.loads(line[-1][len("C07CHILD "):])
 
 
+def family_names():
+    env = dict(os.environ, PYTHONHASHSEED="0", PYTHONDONTWRITEBYTECODE="1", PYTHONWARNINGS="ignore")
+    p = subprocess.run([sys.executable, "-W", "ignore", "-c", "from vf import c07_child as c; import json; print('NAMES ' + json.dumps(sorted(c.full_family())))"],
+                       cwd=common.VERIF_DIR, env=env, capture_output=True, text=True)
+    line = [l for l in p.stdout.splitlines() if l.startswith("NAMES ")]
+    if not line:
+        raise common.HarnessError("cannot list the C07 family: %s" % p.stderr[-500:])
+    return json.loads(line[-1][6:])
+
+
 def run(tier, seed, only=None):
     res = common.Result("C07", tier, seed, level="exploration")
     seeds = sorted(set([0, 1, 2, seed % 100000] + ([3, 5, 8, 13, 21, 34, 55, 89] if tier != "quick" else [])))
     # the family is split in two halves per perturbation to use the cores
     args = [(n, m, hs, seeds, only) for (n, m, hs) in PERTURBATIONS]
-    results = dict(common.pool_map(child, args, procs=len(args)))
+    # "solo": every configuration alone in a fresh interpreter (nothing ran before it in that process)
+    names = family_names() if only is None else [only]
+    solo_args = [("solo:" + n, "plain", "11", seeds, n) for n in names]
+    allres = common.pool_map(child, args + solo_args, procs=16)
+    results = {n: r for n, r in allres if not n.startswith("solo:")}
+    solo = {}
+    for n, r in allres:
+        if n.startswith("solo:"):
+            solo.update(r)
+    results["solo"] = solo
     keys = sorted(results["hash0"])
     distinct = set()
     nruns = 0
@@ -48,7 +67,7 @@ def run(tier, seed, only=None):
                               "C07.run_failed:%s" % cfgname, dict(engine="C07", config=cfgname, seed=int(sd), perturbation="hash0"))
             continue
         distinct.add(base[0])
-        for pname, _, _ in PERTURBATIONS:
+        for pname in [p_[0] for p_ in PERTURBATIONS] + ["solo"]:
             got = results[pname].get(key)
             nruns += 1
             if got is None:
@@ -64,7 +83,7 @@ def run(tier, seed, only=None):
                                   "C07.settings_mutated:%s" % cfgname, dict(engine="C07", config=cfgname, seed=int(sd), perturbation=pname))
             if got[0] != base[0]:
                 kind = {"hash1": "hash seed", "hash4242": "hash seed", "global_rng_a": "global generators", "global_rng_b": "global generators",
-                        "prior_run": "earlier runs in the process", "twice": "earlier runs in the process", "reuse": "reuse of the settings object",
+                        "prior_run": "earlier runs in the process", "twice": "earlier runs in the process", "solo": "earlier runs in the process", "reuse": "reuse of the settings object",
                         "trap": "ambient sources"}.get(pname, pname)
                 res.add_violation("C07.outcome_differs", "the outcome of a (configuration, seed) depends on the %s | %s: %s vs %s under %s" % (kind, key, base[0], got[0], pname),
                                   "C07.outcome_differs:%s:%s" % (kind.replace(" ", "_"), cfgname.split(":")[0]),
@@ -76,7 +95,7 @@ def run(tier, seed, only=None):
     cov["rule"] = RULE
     cov["configurations"] = len(set(k.rsplit("#", 1)[0] for k in keys))
     cov["seeds"] = seeds
-    cov["perturbations"] = [p[0] for p in PERTURBATIONS]
+    cov["perturbations"] = [p[0] for p in PERTURBATIONS] + ["solo (each configuration alone in a fresh process)"]
     cov["samples"] = [dict(config=k, digest=results["hash0"][k][0]) for k in keys[:: max(1, len(keys) // 4)][:4]]
     cov["explanation"] = "finite product of configurations x seeds x perturbations, every combination executed; seeds cannot be enumerated (four are run, more in the thorough tier)"
     res.assumptions = ["seeds are a finite set; what is exhaustive is configuration family x perturbation set x those seeds",
